@@ -60,7 +60,7 @@ def run(tier):
         if r.error or r.violated != "NeverStuck":
             raise vlib.Inconclusive("MC_DiffPipelineFault_leak should violate NeverStuck, got %s %s" % (r.violated, r.error))
         vlib.log("[mc] DiffPipelineFault: tasks left behind after a consumer failed - counterexample as expected (%d steps)" % len(r.trace or []))
-        n = 48 if tier == "quick" else 400
+        n = 60 if tier == "quick" else 400
         tp = os.path.join(d, "diffleak.ndjson")
         vlib.run_driver(binary, ["diffleak", "-n", n, "-out", tp], timeout=3000)
         cnt = vlib.count_lines(tp)
@@ -70,7 +70,7 @@ def run(tier):
         obs = vlib.parse_tagged(r.prints, "OBS")
         odd = vlib.parse_tagged(r.prints, "ODD")
         rows = list(vlib.read_ndjson(tp))
-        fired = sum(1 for c in rows if c["fired"] and c["fault"] in ("patch", "sig"))
+        fired = sum(1 for c in rows if c["fired"] and c["fault"] in ("patch", "sig", "transient"))
         vlib.log("[tv] diffleak: %d real WritePatch runs (%d with a consumer fault that fired); tasks left behind in %d; contrary to the model: %d" % (cnt, fired, len(obs), len(odd)))
         if obs:
             c = vlib.get_line(tp, obs[0][0])
